@@ -524,6 +524,59 @@ class _Small(ast.NodeTransformer):
             return [asg, node]
         return node
 
+    def visit_Match(self, node: ast.Match):  # noqa: N802
+        """`match x: case A(): ... case "s": ... case _: ...` -> the if/elif chain it abbreviates
+        (class patterns without sub-patterns, value / singleton patterns, or-patterns, guards, wildcard)."""
+        self.generic_visit(node)
+        subj = node.subject
+        if any(isinstance(x, (ast.Call, ast.Await, ast.NamedExpr)) for x in ast.walk(subj)):
+            return node
+
+        def test_of(pat: ast.pattern) -> Optional[ast.expr]:
+            if isinstance(pat, ast.MatchClass) and not pat.patterns and not pat.kwd_patterns:
+                return ast.Call(func=ast.Name(id="isinstance", ctx=ast.Load()), args=[copy.deepcopy(subj), pat.cls], keywords=[])
+            if isinstance(pat, ast.MatchValue):
+                return ast.Compare(left=copy.deepcopy(subj), ops=[ast.Eq()], comparators=[pat.value])
+            if isinstance(pat, ast.MatchSingleton):
+                return ast.Compare(left=copy.deepcopy(subj), ops=[ast.Is()], comparators=[ast.Constant(value=pat.value)])
+            if isinstance(pat, ast.MatchOr):
+                parts = [test_of(p_) for p_ in pat.patterns]
+                if any(p_ is None for p_ in parts):
+                    return None
+                if all(isinstance(p_, ast.MatchClass) for p_ in pat.patterns):
+                    return ast.Call(func=ast.Name(id="isinstance", ctx=ast.Load()), args=[copy.deepcopy(subj), ast.Tuple(elts=[p_.cls for p_ in pat.patterns], ctx=ast.Load())], keywords=[])
+                return ast.BoolOp(op=ast.Or(), values=parts)
+            return None
+
+        arms: List[Tuple[Optional[ast.expr], List[ast.stmt]]] = []
+        for case in node.cases:
+            pat = case.pattern
+            if isinstance(pat, ast.MatchAs) and pat.pattern is None and pat.name is None:
+                t: Optional[ast.expr] = None if case.guard is None else case.guard
+                arms.append((t, case.body))
+                if case.guard is None:
+                    break
+                continue
+            t = test_of(pat)
+            if t is None:
+                return node
+            if case.guard is not None:
+                t = ast.BoolOp(op=ast.And(), values=[t, case.guard])
+            arms.append((t, case.body))
+        if not arms:
+            return node
+        result: List[ast.stmt] = []
+        for t, body in reversed(arms):
+            if t is None:
+                result = body
+            else:
+                result = [ast.If(test=t, body=body, orelse=result)]
+        for r in result:
+            ast.copy_location(r, node)
+            ast.fix_missing_locations(r)
+        self.count += 1
+        return result
+
     def visit_While(self, node: ast.While):  # noqa: N802
         self.generic_visit(node)
         # `while True: if c: break; BODY` -> `while not c: BODY`
@@ -659,6 +712,51 @@ def _is_isinstance(v: ast.expr) -> bool:
 
 def _class_list(e: ast.expr) -> List[ast.expr]:
     return list(e.elts) if isinstance(e, ast.Tuple) else [e]
+
+
+def expand_final_aliases(tree: ast.Module) -> int:
+    """`conn = self.connection` (the attribute is assigned only in __init__, the local bound once,
+    at the top level of the method) is a mere alias: its uses read as the attribute chain."""
+    count = 0
+    for cls in [n for n in ast.walk(tree) if isinstance(n, ast.ClassDef)]:
+        assigned_outside_init: Set[str] = set()
+        for m in cls.body:
+            if isinstance(m, FuncDef) and m.name != "__init__":
+                for n in ast.walk(m):
+                    if isinstance(n, ast.Attribute) and isinstance(n.ctx, (ast.Store, ast.Del)) and isinstance(n.value, ast.Name) and n.value.id == "self":
+                        assigned_outside_init.add(n.attr)
+        for m in cls.body:
+            if not isinstance(m, FuncDef) or m.name == "__init__":
+                continue
+            stores: Dict[str, int] = {}
+            for n in ast.walk(m):
+                if isinstance(n, ast.Name) and isinstance(n.ctx, (ast.Store, ast.Del)):
+                    stores[n.id] = stores.get(n.id, 0) + 1
+            params = {a.arg for a in m.args.posonlyargs + m.args.args + m.args.kwonlyargs}
+            aliases: Dict[str, ast.expr] = {}
+            for st in m.body:
+                if isinstance(st, ast.Assign) and len(st.targets) == 1 and isinstance(st.targets[0], ast.Name):
+                    name = st.targets[0].id
+                    d = _dotted(st.value)
+                    if d and d.startswith("self.") and stores.get(name) == 1 and name not in params and d.split(".")[1] not in assigned_outside_init:
+                        aliases[name] = st.value
+            if not aliases:
+                continue
+            if any(isinstance(n, FuncDef + (ast.Lambda,)) and n is not m for n in ast.walk(m)):
+                continue
+
+            class Sub(ast.NodeTransformer):
+                def visit_Name(self, node: ast.Name):  # noqa: N802
+                    nonlocal count
+                    if isinstance(node.ctx, ast.Load) and node.id in aliases:
+                        count += 1
+                        return ast.copy_location(copy.deepcopy(aliases[node.id]), node)
+                    return node
+
+            m.body = [Sub().visit(st) for st in m.body]
+    if count:
+        ast.fix_missing_locations(tree)
+    return count
 
 
 def flag_loops(tree: ast.Module) -> int:
@@ -1154,6 +1252,10 @@ def canonicalise(name: str, tree: ast.Module, known: Dict[str, Dict[str, List[st
             stats["constants_propagated"] = n
     small = _Small()
     small.visit(tree)
+    if k is not None:
+        nal = expand_final_aliases(tree)
+        if nal:
+            stats["final_aliases_expanded"] = nal
     nfl = flag_loops(tree)
     if nfl:
         stats["flag_loops"] = nfl
